@@ -62,7 +62,7 @@ def main():
     print("MANIFEST.json: %d checks, %d not_applicable" % (len(checks), len(na)))
 
 NA = {}
-HOOK_COMMITS = ['889f9bdbd', '117e8280a', '80ba5f28c', 'd6f180a1b', 'bcef85952', 'de70a3a5c']
+HOOK_COMMITS = ['889f9bdbd', '117e8280a', '80ba5f28c', 'd6f180a1b', 'bcef85952', 'de70a3a5c', '075d5ffc6', '545cb281a']
 
 if __name__ == "__main__":
     main()
